@@ -282,7 +282,7 @@ INVENTORY = {
     "src/engine/engine_io.c": {"mj_makeModel": 2, "mj_saveModel": 1, "mj_makeRawData": 3, "mj_copyDataVisual": 1, "_resetData": 2},
     "src/engine/engine_print.c": {"mj_printFormattedData": 1},
     "src/engine/engine_util_solve.c": {"mju_cholFactorSymbolic": 4, "mju_boxQPmalloc": 7},
-    "src/engine/engine_vis_init.c": {"mjv_makeScene": 20},
+    "src/engine/engine_vis_init.c": {"mjv_makeScene": 19},
     "src/engine/engine_collision_continuous.c": None,
     "src/user/user_resource.cc": {"openResourceInternal": 1, "mju_writeResource": 1},
     "src/user/user_api.cc": None, "src/user/user_composite.cc": None, "src/user/user_mesh.cc": None,
